@@ -105,20 +105,6 @@ def _type_safe_is_in(a, b):
     return numpy.isin(a, b)
 
 
-def _k_and(*args):
-    res = args[0]
-    for i in range(1, len(args)):
-        res = numpy.logical_and(res, args[i])
-    return res
-
-
-def _k_or(*args):
-    res = args[0]
-    for i in range(1, len(args)):
-        res = numpy.logical_or(res, args[i])
-    return res
-
-
 def _k_add(*args):
     res = args[0]
     for i in range(1, len(args)):
@@ -228,6 +214,32 @@ class PandasModelBase(
         deltas = [(cur_dates[i] - base_dates[i]).days for i in range(len(cur_dates))]
         res = [di // 7 for di in deltas]
         res = numpy.maximum(res, 1)
+        return res
+
+    def _three_valued(self, args, *, is_and: bool):
+        """
+        and / or over truth values that may be missing: three valued logic, as SQL and Polars
+        compute it (False and missing is False, True or missing is True, else missing).
+        """
+        decided = None  # positions settled by one operand: False for and, True for or
+        any_missing = None
+        for a in args:
+            missing = numpy.asarray(self.pd.isnull(a))
+            truth = numpy.where(missing, False, numpy.asarray(a, dtype=object)).astype(
+                bool
+            )
+            settles = numpy.logical_and(
+                numpy.logical_not(missing), numpy.logical_not(truth) if is_and else truth
+            )
+            decided = settles if decided is None else numpy.logical_or(decided, settles)
+            any_missing = (
+                missing if any_missing is None else numpy.logical_or(any_missing, missing)
+            )
+        res = numpy.where(decided, not is_and, is_and)
+        open_missing = numpy.logical_and(any_missing, numpy.logical_not(decided))
+        if numpy.any(open_missing):
+            res = res.astype(object)
+            res[open_missing] = None
         return res
 
     def _coalesce(self, a, b):
@@ -350,10 +362,10 @@ class PandasModelBase(
             "%/%": numpy.divide,
             "%": numpy.mod,
             "**": numpy.power,
-            "and": _k_and,
-            "&": _k_and,
-            "or": _k_or,
-            "|": _k_or,
+            "and": lambda *args: self._three_valued(args, is_and=True),
+            "&": lambda *args: self._three_valued(args, is_and=True),
+            "or": lambda *args: self._three_valued(args, is_and=False),
+            "|": lambda *args: self._three_valued(args, is_and=False),
             "xor": numpy.logical_xor,
             "^": numpy.logical_xor,
             "not": _not_equal_false,
